@@ -176,7 +176,7 @@ func runC12(r *mon.Run) {
 	r.Assume("k shifted by a multiple of ord(QR_n) is outside the property (a prover who knows the group order can do that on toy keys); the one trapdoor family used, square roots modulo ord for a false statement, must be stopped by the response size limits")
 	key := world.Fixture("toy256a")
 	x := &c12ctx{r: r, key: key, table: rangeproof.GenerateSquaresTable(4096)}
-	maxM := int64(r.Pick(8, 24))
+	maxM := int64(r.Pick(8, 40))
 	type job struct {
 		m     int64
 		sign  int
@@ -215,7 +215,7 @@ func runC12(r *mon.Run) {
 	r.Exhaustive(true)
 	r.Set("exhaustive_scope", fmt.Sprintf("m in [0..%d] x sign {1,-1} x factor {1..4} (three squares: factor 1) x bound [-4..110] x {four squares, three squares}; query box as in rule", maxM))
 	// edges, transplants, alterations
-	njobs := r.Pick(16, 160)
+	njobs := r.Pick(16, 500)
 	eseeds := make([]uint64, njobs)
 	for i := range eseeds {
 		eseeds[i] = rng.Uint64()
